@@ -517,7 +517,9 @@ def u_freeze(root):
             eng.verify(cls, "_pre_fit_iteration", None, lambda e, st, me_, first=first: (e.write_field(st, me_, "_nexus", RecNexus()), {"first_fit": VBool(z3.BoolVal(first))})[1], contract=c, tag=f"[{cls},first_fit={first}]")
             c = Contract(cls, "_post_fit_iteration")
             c.ensures.append(lambda vw, first=first: [("the list is asked for with the same first_fit flag", z3.BoolVal([x[1] for x in fx(vw, "names_for")] == [str(first)])),
-                                                      ("every node of the list is unfrozen, recomputed and announced to its parents; nothing stays frozen", z3.BoolVal([(c_[0], c_[1]) for c_ in vw.post.ghost.get("node_calls", ())] == [(n_, op) for n_ in L for op in ("unfreeze", "update", "notify_parents")]))])
+                                                      ("every node of the list is unfrozen (C04: unfreeze makes the node stale and notifies its parents), nothing is frozen again, and only nodes of the list are touched",
+                                                       z3.BoolVal([c_[0] for c_ in vw.post.ghost.get("node_calls", ()) if c_[1] == "unfreeze"] == list(L) and all(c_[0] in L and c_[1] in ("unfreeze", "update", "notify_parents") for c_ in vw.post.ghost.get("node_calls", ()))
+                                                                  and all([c2[1] for c2 in vw.post.ghost.get("node_calls", ()) if c2[0] == n_][0] == "unfreeze" for n_ in L)))])
 
             def init_post(e, st, me_, first=first):
                 e.write_field(st, me_, "_nexus", RecNexus())
@@ -592,8 +594,9 @@ def u_do_fit(root):
                             ev.append(x[2])
                         elif x[0] in ("data_as_ref", "formatters", "result_dict"):
                             ev.append(x[0])
-                    bracket = lambda first, reset: ["pre:%s" % first] + (["reset_minimizer"] if reset else []) + ["do_fit", "post:%s" % first]
-                    core_ = [e_ for e_ in ev if e_ not in ("formatters", "result_dict")]
+                    bracket = lambda first, reset: ["pre:%s" % first, "do_fit", "post:%s" % first]
+                    core_ = [e_ for e_ in ev if e_ not in ("formatters", "result_dict", "reset_minimizer")]          # (a reset of the minimizer between passes is allowed, not required)
+                    resets_ok = all(ev[q_ - 1].startswith("pre:") for q_, e_ in enumerate(ev) if e_ == "reset_minimizer")       # ... but only between freeze and minimisation
                     ok_seq = core_[:4] == ["data_as_ref"] + bracket(True, False)
                     rest = core_[4:]
                     if mode == "single":
@@ -601,10 +604,10 @@ def u_do_fit(root):
                     elif mode == "second":
                         ok_seq = ok_seq and rest == bracket(False, True)
                     else:
-                        ok_seq = ok_seq and rest in ([], bracket(False, True), bracket(False, True) * 2) and len(rest) >= 4
+                        ok_seq = ok_seq and rest in (bracket(False, True), bracket(False, True) * 2)
                     target = [x for x in fx(vw, "set") if x[1] == "fitter" and x[2] == "parameter_to_minimize"]
                     diag = z3.Bool("total_cov_mat_is_diagonal")
-                    out = [("model-relative sources take the data as reference for the first pass, then every minimisation is bracketed by freeze (before) and unfreeze (after) with the SAME first_fit flag; later passes start from a reset minimizer; nothing is left open", z3.BoolVal(ok_seq)),
+                    out = [("model-relative sources take the data as reference for the first pass, then every minimisation is bracketed by freeze (before) and unfreeze (after) with the SAME first_fit flag; nothing is left open", z3.BoolVal(ok_seq and resets_ok)),
                            ("results loaded from a file no longer shadow the live ones", z3.BoolVal(isinstance(vw.f(vw.post, vw.self, "_loaded_result_dict"), VNone))),
                            ("the formatters are refreshed after the last minimisation, and the result dictionary is built last", z3.BoolVal(ev[-2:] == ["formatters", "result_dict"]))]
                     if pointwise:
